@@ -5,7 +5,7 @@ CONSTANTS
   Sigma = {97}
   PatLens = 1..36
   Dg = {9}
-  MaxDigits = 3
+  MaxDigits = 2
   WordAlphabet = {97, 98, 65}
   MaxWordLen = 3
   MaxMixedLen = 2
